@@ -64,6 +64,8 @@ pub fn check(sc: &CScenario) -> CaseResult {
     enum St {
         Requested(bool), // send ok?
         Cancelled,
+        /// the cancellation was handed to the transport, which rejected it: nothing reached the peer
+        CancelFailed,
     }
     let mut st: BTreeMap<u64, St> = BTreeMap::new();
     for s in &v.sends {
@@ -79,8 +81,8 @@ pub fn check(sc: &CScenario) -> CaseResult {
                 Some(St::Requested(false)) => {
                     return fail(format!("seq {}: Cancel({id}) transmitted although writing request {id} had failed", s.seq))
                 }
-                Some(St::Requested(true)) => {
-                    st.insert(*id, St::Cancelled);
+                Some(St::Requested(true)) | Some(St::CancelFailed) => {
+                    st.insert(*id, if s.ok { St::Cancelled } else { St::CancelFailed });
                 }
             },
             _ => {}
@@ -115,6 +117,8 @@ pub fn check(sc: &CScenario) -> CaseResult {
             || matches!(&r.ev, Ev::Io { tr: 0, res: IoRes::Err, op: IoOp::Ready | IoOp::Flush | IoOp::Close, .. })
             || matches!(&r.ev, Ev::Io { tr: 0, res: IoRes::Err, op: IoOp::Send, sent: Some(Msg::Cancel { .. }), .. })
     });
+    // the peer ended or broke the read side: the dispatch stops without owing anything more
+    let inbound_over = run.recs.iter().any(|r| matches!(&r.ev, Ev::Io { tr: 0, res: IoRes::ItemErr | IoRes::End, op: IoOp::Next, .. }));
     let mut classes: BTreeSet<&'static str> = BTreeSet::new();
     let mut nontrivial = false;
     for c in &run.calls {
@@ -146,11 +150,18 @@ pub fn check(sc: &CScenario) -> CaseResult {
                         classes.insert("excused:deadline");
                     } else if write_failed {
                         classes.insert("excused:write-failed");
-                    } else if dispatch_over || conn_failed {
+                    } else if matches!(run.dispatch_end, Some(Err(_))) || (dispatch_over && inbound_over) {
+                        // "connection lost" = the dispatch ended with an error, or the peer ended the read side.
+                        // A transport failure that the dispatch swallows, or an orderly shutdown after the last
+                        // handle was dropped (which must drain queued cancellations first, C10), is no excuse
+                        // (seeded change C03-failed-cancel-write-swallowed)
                         classes.insert("excused:connection-lost");
+                        if conn_failed {
+                            classes.insert("excused:connection-lost-after-transport-failure");
+                        }
                     } else {
                         return fail(format!(
-                            "call {call} was abandoned (seq {dseq}); its request (id {id}) is on the wire (seq {sseq}) but no Cancel({id}) was transmitted although the dispatch ran to quiescence with a writable transport, no response for it was processed, its deadline ({}ns) has not passed (t={final_t}ns), its write succeeded and the connection is up",
+                            "call {call} was abandoned (seq {dseq}); its request (id {id}) is on the wire (seq {sseq}) but no Cancel({id}) was transmitted although the dispatch ran to quiescence with a writable transport, no response for it was processed, its deadline ({}ns) has not passed (t={final_t}ns), its write succeeded and the connection is up (dispatch still running; a transport operation failed earlier: {conn_failed})",
                             c.deadline_ns
                         ));
                     }
